@@ -748,3 +748,28 @@ V('twin-c18-r-pass-reference', 'C18', 'hl7apy/core.py',
   "        children = super(Group, self).parse_children(text, **kwargs)\n        self._find_structure(self.reference)\n        self.children = children", expect='clean')
 V('c16-f-dot-payload', 'C16', 'hl7apy/mllp.py', 'r"(([^\\r]+\\r)*([^\\r]+\\r?))"', 'r"(.+)"', rule='C16-F')
 V('twin-c16-f-dotall-class', 'C16', 'hl7apy/mllp.py', 'r"(([^\\r]+\\r)*([^\\r]+\\r?))"', 'r"((?:[^\\r]+\\r)*(?:[^\\r]+\\r?))"', expect='clean')
+
+# ---------------------------------------------------------------- benign refactorings as twins, and breaking edits on top of them
+import glob as _glob
+import os as _os
+_HERE = _os.path.dirname(_os.path.dirname(_os.path.abspath(__file__)))
+_PROPS_OF = {'B1': ('C01', 'C02', 'C03', 'C07', 'C08', 'C15', 'C17', 'C18'), 'B2': ('C04', 'C09', 'C10', 'C11', 'C12', 'C14'),
+             'B3': ('C05', 'C09', 'C11', 'C12', 'C14', 'C17'), 'B4': ('C01', 'C02', 'C07', 'C08', 'C09', 'C18', 'C19'),
+             'B5': ('C04', 'C05', 'C13', 'C15', 'C19'), 'B6': ('C05', 'C06', 'C07', 'C13', 'C16', 'C19')}
+for _d in sorted(_glob.glob(_os.path.join(_HERE, 'benign', '*', 'patch.diff'))):
+    _n = _os.path.basename(_os.path.dirname(_d))
+    for _p in _PROPS_OF.get(_n[:2], ()):
+        VARIANTS.append(dict(id='benign-%s-%s' % (_n, _p), prop=_p, file=None, old=None, new=None, expect='clean', rule=None,
+                             patch='benign/%s/patch.diff' % _n, edits=[]))
+# a wrapper that attaches on one path only is not an attach
+V('c03-wrapper-one-sided', 'C03', None, None, None, rule='C03-P', patch='benign/B1-04/patch.diff', edits=[
+  ('hl7apy/parser.py', "    if parent is None:\n        top_level.append(element)\n    else:\n        parent.add(element)\n",
+   "    if parent is None:\n        top_level.append(element)\n")])
+V('c08-wrapper-one-sided', 'C08', None, None, None, rule='C08-S', patch='benign/B1-04/patch.diff', edits=[
+  ('hl7apy/parser.py', "    if parent is None:\n        top_level.append(element)\n    else:\n        parent.add(element)\n",
+   "    if parent is None:\n        top_level.append(element)\n")])
+V('c11-helper-creates-real', 'C11', None, None, None, rule='C11-L1', patch='benign/B2-01/patch.diff', edits=[
+  ('hl7apy/core.py', "            return proxy.element_list.create_element(proxy.element_name, traversal_parent=True)",
+   "            return proxy.element_list.create_element(proxy.element_name)")])
+V('c07-helper-other-value', 'C07', None, None, None, rule='C07-K', patch='benign/B4-05/patch.diff', edits=[
+  ('hl7apy/core.py', "encoding_chars['FIELD'])", "encoding_chars['COMPONENT'])")])
